@@ -74,7 +74,16 @@ KNOWN_WITNESS = {
 
 # -------------------------------------------------------------------------------------------- type trees
 # T ::= ('p', ty_name) | ('e',) | ('ptr', flavour) | ('a', n, T) | ('f', T) | ('s'|'u', packed, aligned|None, [M])
-# M ::= (alignas, width|None, named, T)      alignas: int (0 = none) or ('T', type) for _Alignas(type-name)
+# M ::= (alignas, width|None, named, T)      alignas: int (0 = none) | ('T', type) for _Alignas(type-name) | ('L', [int | ('T', type)]) several
+
+def specs_of(aa):
+    """alignment specifiers of a member as a list of int | ('T', type)"""
+    if isinstance(aa, tuple):
+        return list(aa[1]) if aa[0] == 'L' else [aa]
+    return [aa] if aa else []
+
+def ser_specs(specs):
+    return ' '.join(('t ' + ser(x[1])) if isinstance(x, tuple) else f'c {x}' for x in specs)
 
 def ser(t):
     k = t[0]
@@ -91,7 +100,9 @@ def ser(t):
     if k in 'su':
         s = f'{k} {1 if t[1] else 0} {"-" if t[2] is None else t[2]} {len(t[3])}'
         for (aa, w, nm, mt) in t[3]:
-            if isinstance(aa, tuple):       # _Alignas(type-name): ('T', type)
+            if isinstance(aa, tuple) and aa[0] == 'L':     # several specifiers
+                s += f' G {len(aa[1])} ' + ser_specs(aa[1]) + f' {"-" if w is None else w} {1 if nm else 0} ' + ser(mt)
+            elif isinstance(aa, tuple):       # _Alignas(type-name): ('T', type)
                 s += f' M {"-" if w is None else w} {1 if nm else 0} ' + ser(aa[1]) + ' ' + ser(mt)
             else:
                 s += f' m {aa} {"-" if w is None else w} {1 if nm else 0} ' + ser(mt)
@@ -121,6 +132,19 @@ def parse(tokens):
             j = i + 4
             ms = []
             for _ in range(n):
+                if tokens[j] == 'G':
+                    nspec = int(tokens[j + 1]); j += 2
+                    specs = []
+                    for _ in range(nspec):
+                        if tokens[j] == 'c':
+                            specs.append(int(tokens[j + 1])); j += 2
+                        else:
+                            ta, j = ty(j + 1)
+                            specs.append(('T', ta))
+                    w = None if tokens[j] == '-' else int(tokens[j]); nm = tokens[j + 1] == '1'
+                    t, j = ty(j + 2)
+                    ms.append((('L', specs), w, nm, t))
+                    continue
                 if tokens[j] == 'M':
                     w = None if tokens[j + 1] == '-' else int(tokens[j + 1]); nm = tokens[j + 2] == '1'
                     ta, j = ty(j + 3)
@@ -156,8 +180,9 @@ def all_aggregates(t, out):
     if k in 'su':
         out.append(t)
         for m in t[3]:
-            if isinstance(m[0], tuple):
-                all_aggregates(m[0][1], out)
+            for x in specs_of(m[0]):
+                if isinstance(x, tuple):
+                    all_aggregates(x[1], out)
             all_aggregates(m[3], out)
     elif k == 'a':
         all_aggregates(t[2], out)
@@ -173,7 +198,7 @@ def regions_of(t):
             continue
         if a[0] == 's' and any(m[1] is not None and m[1] > 0 for m in a[3]):
             r.add('C08-packed-bitfield-straddle')
-        if any(m[0] != 0 for m in a[3]):
+        if any(any(isinstance(x, tuple) or x for x in specs_of(m[0])) for m in a[3]):
             r.add('C08-packed-member-alignas')
         if a[0] == 'u' and any(m[1] is not None and m[2] for m in a[3]):
             r.add('C08-packed-union-bitfield')
@@ -187,8 +212,26 @@ def clone(t):
     if k == 'f':
         return ('f', clone(t[1]))
     if k in 'su':
-        return (k, t[1], t[2], [((('T', clone(aa[1])) if isinstance(aa, tuple) else aa), w, nm, clone(mt)) for (aa, w, nm, mt) in t[3]])
+        return (k, t[1], t[2], [(clone_aa(aa), w, nm, clone(mt)) for (aa, w, nm, mt) in t[3]])
     return tuple(t)
+
+def clone_aa(aa):
+    if isinstance(aa, tuple) and aa[0] == 'L':
+        return ('L', [(('T', clone(x[1])) if isinstance(x, tuple) else x) for x in aa[1]])
+    if isinstance(aa, tuple):
+        return ('T', clone(aa[1]))
+    return aa
+
+def render_spec(x, rng, namer):
+    """one `_Alignas(...)`"""
+    if isinstance(x, tuple):
+        ta = x[1]
+        if ta[0] in 'su' or rng.random() < 0.5:
+            an = f'A{namer.tag}_{namer.fresh("")}'
+            namer.pre.append('typedef ' + render(ta, an, rng, namer, {}) + ';')
+            return f'_Alignas({an})'
+        return f'_Alignas({render(ta, "", rng, namer, {})})'
+    return f'_Alignas({x})'
 
 class Namer:
     def __init__(self, tag=''):
@@ -242,16 +285,11 @@ def render(t, name, rng, namer, names, noconst=False):
             mname = namer.fresh() if nm else ''
             mnames.append(mname)
             d = render(mt, mname, rng, namer, names, noconst=w is not None)
-            if isinstance(aa, tuple):
-                ta = aa[1]
-                if ta[0] in 'su' or rng.random() < 0.5:
-                    an = f'A{namer.tag}_{namer.fresh("")}'
-                    namer.pre.append('typedef ' + render(ta, an, rng, namer, {}) + ';')
-                    d = f'_Alignas({an}) ' + d
-                else:
-                    d = f'_Alignas({render(ta, "", rng, namer, {})}) ' + d
-            elif aa != 0 or (w is None and rng.random() < 0.03):
-                d = f'_Alignas({aa}) ' + d
+            specs = specs_of(aa)
+            if not specs and w is None and rng.random() < 0.03:
+                specs = [0]
+            if specs:
+                d = ' '.join(render_spec(x, rng, namer) for x in specs) + ' ' + d
             if w is not None:
                 d += f' : {w}'
             body += ' ' + d + ';'
@@ -569,10 +607,8 @@ def nat_align(t):
     for (aa, w, nm, mt) in t[3]:
         if w is not None and not nm:
             continue
-        if isinstance(aa, tuple):
-            a = nat_align(aa[1])
-        else:
-            a = aa if aa else (1 if t[1] else nat_align(mt))
+        sp = [nat_align(x[1]) if isinstance(x, tuple) else x for x in specs_of(aa)]
+        a = max(sp) if sp and max(sp) else (1 if t[1] else nat_align(mt))
         al = max(al, a)
     return al
 
@@ -613,6 +649,19 @@ def gen_aggregate(rng, depth, nmem, top=True, kind=None, packed=None):
             if nat_align(ta) < nat_align(mt):      # C11 6.7.5p4: may not reduce the alignment -> take a byte buffer as the member
                 mt = ('a', rng.choice([1, 3, 12, 17]), ('p', 'ty_uchar'))
             aa = ('T', ta)
+        elif x < 0.36:
+            # several specifiers: the strictest takes effect (C11 6.7.5p6); weaker ones and 0 may accompany it
+            na = nat_align(mt)
+            specs = []
+            for _ in range(rng.randrange(2, 4)):
+                if rng.random() < 0.5:
+                    specs.append(rng.choice([0, 1, 2, 4, 8, 16, 32]))
+                else:
+                    specs.append(('T', gen_alignas_operand(rng, min(depth, 1))))
+            eff = max(nat_align(y[1]) if isinstance(y, tuple) else y for y in specs)
+            if eff and eff < na:
+                specs.insert(rng.randrange(len(specs) + 1), rng.choice([a for a in (1, 2, 4, 8, 16, 32) if a >= na]))
+            aa = ('L', specs)
         named = True
         if mt[0] in 'su' and rng.random() < 0.4:
             named = False
@@ -646,6 +695,8 @@ def member_alphabet():
                    ('u', False, None, [(0, None, True, ('p', 'ty_short')), (0, None, True, ('a', 5, ('p', 'ty_char')))]),
                    ('ptr', 2), ('p', 'ty_ldouble'), ('a', 2, ('p', 'ty_long'))):
             A.append((('T', ta), None, True, buf))
+        A.append((('L', [16, 4]), None, True, ('p', 'ty_char')))
+        A.append((('L', [2, ('T', ('a', 3, ('p', 'ty_long'))), 0]), None, True, ('p', 'ty_short')))
         for base, ws in (('ty_char', (1, 5, 8)), ('ty_ushort', (9, 16)), ('ty_int', (1, 17, 31, 32)), ('ty_ulong', (33, 63)), ('ty_bool', (1,))):
             for w in ws:
                 A.append((0, w, True, ('p', base)))
@@ -912,58 +963,86 @@ def stddef_leg(ctx, corr):
                                 'expected': og, 'got': bad})
 
 def alignas_vars_leg(ctx, corr):
-    """_Alignas(type-name) / _Alignas(n) on file-scope, static and automatic variables: the address must be a multiple of the
-    requested alignment (attr->align reaches var->align, the .align directive and the frame layout)"""
+    """one or several _Alignas(type-name) / _Alignas(n) on file-scope, file-scope static, block-scope static and automatic
+    objects: declspec's attr->align (MAX over the specifiers) reaches var->align, the .align directive and the frame layout.
+    model (`drv_c08 var`): the address the snapshot's program prints must be a multiple of the model's alignment;
+    spec (`drv_c08 specvar`) must equal gcc's _Alignof(object); chibicc must place the object at a multiple of it."""
     rng = ctx.rng
     n = 40 if not ctx.thorough else 400
-    pre, glob, loc, body = [], [], [], []
-    want = []
+    pre, glob, loc, body, queries, shown = [], [], [], [], [], []
+    types = [('p', 'ty_char'), ('a', 3, ('p', 'ty_uchar')), ('p', 'ty_short'), ('p', 'ty_int'), ('a', 5, ('p', 'ty_char'))]
+    k = 0
     for i in range(n):
-        if rng.random() < 0.7:
-            ta = gen_alignas_operand(rng, 1)
-            if regions_of(ta):
-                continue
-            namer = Namer(f'v{i}')
-            an = f'AV{i}'
-            pre += namer.pre
-            d = render(ta, an, rng, namer, {})
-            pre += namer.pre
-            pre.append(f'typedef {d};')
-            spec, mod = f'_Alignas({an})', f'_Alignof({an})'
-        else:
-            a = rng.choice([1, 2, 4, 8, 16, 32])
-            spec, mod = f'_Alignas({a})', str(a)
+        vt = rng.choice(types)
+        specs = []
+        for _ in range(rng.choice([1, 1, 2, 3])):
+            if rng.random() < 0.6:
+                ta = gen_alignas_operand(rng, 1)
+                if regions_of(ta):
+                    continue
+                specs.append(('T', ta))
+            else:
+                specs.append(rng.choice([0, 1, 2, 4, 8, 16, 32]))
+        if not specs:
+            continue
+        eff = max(nat_align(y[1]) if isinstance(y, tuple) else y for y in specs)
+        if eff and eff < nat_align(vt):
+            specs.append(rng.choice([a for a in (4, 8, 16, 32) if a >= nat_align(vt)]))
+            eff = max(eff, specs[-1])
+        namer = Namer(f'v{k}')
+        sp = ' '.join(render_spec(x, rng, namer) for x in specs)
+        pre += namer.pre
         # automatic objects: only fundamental alignments (<= 16 = _Alignof(max_align_t)); support for extended alignments is
-        # implementation-defined per storage duration (C11 6.2.8p3) and chibicc keeps %rsp 16-aligned only.
-        # block-scope statics are left out: chibicc ignores _Alignas on them (reported to the lead as a separate defect).
-        big = (nat_align(ta) if spec.startswith('_Alignas(AV') else a) > 16
-        glob.append(f'char gp{i}; {spec} char g{i}; static {spec} unsigned char sg{i}[3];')
-        if big:
-            loc.append(f'  char lp{i}; char l{i};')
-            body.append(f'  printf("A {i} %ld %ld %ld\\n", (long)((unsigned long)&g{i} % {mod}), (long)((unsigned long)sg{i} % {mod}), 0L);')
-        else:
-            loc.append(f'  char lp{i}; {spec} char l{i};')
-            body.append(f'  printf("A {i} %ld %ld %ld\\n", (long)((unsigned long)&g{i} % {mod}), (long)((unsigned long)sg{i} % {mod}), '
-                        f'(long)((unsigned long)&l{i} % {mod}));')
-        want.append(f'A {i} 0 0 0')
+        # implementation-defined per storage duration (C11 6.2.8p3) and chibicc keeps %rsp 16-aligned only
+        big = eff > 16
+        def decl(prefix, name):
+            d = render(vt, name, rng, namer, {})
+            return f'{prefix}{sp} {d};'
+        glob.append(f'char gp{k}; {decl("", f"g{k}")} {decl("static ", f"sg{k}")}')
+        loc.append(f'  char lp{k}; {decl("" if not big else "static ", f"l{k}")} static char sp{k}; {decl("static ", f"sl{k}")}')
+        body.append(f'  printf("A {k} %ld %ld %ld %ld %ld\\n", (long)_Alignof(g{k}), (long)((unsigned long)&g{k} % 64), (long)((unsigned long)&sg{k} % 64), '
+                    f'(long)((unsigned long)&l{k} % 64), (long)((unsigned long)&sl{k} % 64));')
+        queries.append(f'{len(specs)} ' + ser_specs(specs) + ' ' + ser(vt))
+        shown.append(' '.join(namer.pre) + f' {glob[-1]} /* in main: */ {loc[-1].strip()}')
+        k += 1
+    if not k:
+        return
     src = 'int printf(const char *, ...);\n' + '\n'.join(pre + glob) + '\nint main(void) {\n' + '\n'.join(loc + body) + '\n  return 0; }\n'
+    model = ctx.driver('var', '\n'.join(queries) + '\n').splitlines()
+    spec = ctx.driver('specvar', '\n'.join(queries) + '\n').splitlines()
     okg, og = run_program(ctx, src, 'avars', 'g')
     if not okg:
         corr.count('skipped_gcc_rejects')
+        ctx.notes.append('gcc rejects the _Alignas variable probe: ' + str(og)[-300:])
         return
-    okc, oc = run_program(ctx, src, 'avars', 'c')
-    corr.evaluations += len(want)
-    corr.count('alignas-variable', len(want))
-    if og != want:
-        corr.disagreements.append({'kind': 'probe', 'what': 'gcc itself does not align the variables of the _Alignas probe', 'gcc': [l for l in og if l not in want][:3]})
+    # chibicc's _Alignof(expression) is the alignment of the type, not of the object; print 0 there
+    okc, oc = run_program(ctx, src.replace('(long)_Alignof(g', '0L * (long)sizeof(g'), 'avars', 'c')
+    corr.evaluations += k
+    corr.count('alignas-variable', k)
+    if not okc:
+        corr.violations.append({'what': 'chibicc does not translate _Alignas on objects that gcc accepts', 'input': src[:1500],
+                                'expected': 'program compiles and runs', 'got': oc})
         return
-    if not okc or oc != want:
-        bad = [l for l in oc if l not in want][:3] if okc else oc
-        k = int(bad[0].split()[1]) if okc and bad else None
-        corr.violations.append({'what': 'a variable declared with _Alignas is not placed at a multiple of the requested alignment'
-                                        if okc else 'chibicc does not translate _Alignas on variables that gcc accepts',
-                                'input': (' '.join(pre) + ' ' + glob[k] + ' /* and in main: */ ' + loc[k].strip()) if k is not None else src[:1500],
-                                'expected': 'address % alignment == 0 for the file-scope, file-scope static and automatic variable', 'got': bad})
+    for i in range(k):
+        gl, cl = og[i].split(), oc[i].split()
+        ms_, ss_ = model[i].split(), spec[i].split()
+        ga = int(gl[2])
+        corr.nontrivial.add('var:' + queries[i])
+        if ss_[0] != 'ok' or int(ss_[1]) != ga:
+            corr.disagreements.append({'kind': 'alignas spec vs gcc', 'input': shown[i].strip(), 'spec': spec[i], 'gcc _Alignof(object)': ga})
+            continue
+        if any(int(x) % ga for x in gl[3:]):
+            corr.disagreements.append({'kind': 'probe', 'what': 'gcc itself does not align the objects of the _Alignas probe', 'gcc': og[i]})
+            continue
+        if ms_[0] != 'ok' or any(int(x) % min(int(ms_[1]), 64) for x in cl[3:]):
+            corr.disagreements.append({'kind': 'alignas model vs chibicc', 'input': shown[i], 'model': model[i], 'impl addresses mod 64': cl[3:]})
+        if any(int(x) % ga for x in cl[3:]):
+            which = [nm for nm, x in zip(('file scope', 'file-scope static', 'automatic' , 'block-scope static'), cl[3:]) if int(x) % ga]
+            corr.violations.append({'what': 'an object declared with _Alignas is not placed at a multiple of the requested alignment (' + ', '.join(which) + ')',
+                                    'input': shown[i].strip(), 'expected': f'address % {ga} == 0', 'got': 'addresses mod 64: ' + ' '.join(cl[3:])})
+            if sum(1 for v in corr.violations if v['what'].startswith('an object declared')) >= 3:
+                break
+    corr.sample({'_Alignas object': shown[0], 'model': model[0], 'gcc': og[0]})
 
 HUGE_ID = 'C08-huge-struct-overflow'
 def huge_leg(ctx, corr):
@@ -1056,9 +1135,12 @@ def shrink(ctx, t):
         for j, (aa, w, nm, mt) in enumerate(ms):
             if aa:
                 yield (k, packed, al, ms[:j] + [(0, w, nm, mt)] + ms[j + 1:])
-            if isinstance(aa, tuple) and aa[1][0] in 'su':
+            if isinstance(aa, tuple) and aa[0] == 'T' and aa[1][0] in 'su':
                 for v in variants(aa[1]):
                     yield (k, packed, al, ms[:j] + [(('T', v), w, nm, mt)] + ms[j + 1:])
+            if isinstance(aa, tuple) and aa[0] == 'L':
+                for q in range(len(aa[1])):
+                    yield (k, packed, al, ms[:j] + [(('L', aa[1][:q] + aa[1][q + 1:]), w, nm, mt)] + ms[j + 1:])
             if mt[0] in 'su':
                 for v in variants(mt):
                     yield (k, packed, al, ms[:j] + [(aa, w, nm, v)] + ms[j + 1:])
@@ -1084,7 +1166,7 @@ def correspond(ctx, corr):
     corr.rule = ('(1) every permutation of every C11 6.7.2p2 specifier multiset (+ interleaved qualifiers) and a stream of invalid keyword sequences '
                  '(all of length <= 2, thorough <= 4, plus random neighbours of valid ones) through chibicc, gcc, the declspec model and the C11 table; '
                  '(2) declarations of scalars, arrays, pointers, every bit-field base type x width (alone, between chars, in a union, next to unnamed '
-                 'fields), zero-width fields, all member sequences of length <= 2 over a 35-letter member alphabet (incl. _Alignas(type-name) with array/struct/union/pointer/scalar operands) in struct and union, random sequences '
+                 'fields), zero-width fields, all member sequences of length <= 2 over a 37-letter member alphabet (incl. _Alignas(type-name) with array/struct/union/pointer/scalar operands) in struct and union, random sequences '
                  'of length 3-4 with packed/aligned(n), random nested declarations (<= 8 members, depth <= 3, anonymous members, _Alignas, flexible '
                  'last member): each compiled by the snapshot chibicc and by gcc 12 into a program that prints sizeof, _Alignof, offsetof of every '
                  'reachable named member and the set bits after assigning all-ones to each bit-field of a zeroed object; the numbers are compared '
